@@ -137,6 +137,9 @@ func runHistory(cfg WorldCfg, src opSource, maxOps int, stopAtFail string) *hist
 				}
 			}
 		}
+		if cur.obsPanic != "" {
+			w.poisoned = true
+		}
 		if w.poisoned {
 			break
 		}
